@@ -1110,7 +1110,21 @@ def dom_guard(ctx, f, nid):
                 continue
         exp.add(a)
     exp = exp | derived_membership(f, exp)
-    return exp | witness_atoms(ctx, f, exp)
+    exp = exp | witness_atoms(ctx, f, exp)
+    return exp | narrowed_types(exp)
+
+
+def narrowed_types(atoms):
+    """isinstance(x, (A, B)) true and isinstance(x, A) false  gives  isinstance(x, B) true  (the else-arm of a type dispatch that was
+    validated up front)"""
+    out = set()
+    for a in atoms:
+        if a[0] == "isinstance" and a[3] is True and a[2].startswith("(") and a[2].endswith(")"):
+            alts = [s_.strip() for s_ in a[2][1:-1].split(",") if s_.strip()]
+            left = [t_ for t_ in alts if ("isinstance", a[1], t_, False) not in atoms]
+            if len(left) == 1 and len(alts) > 1:
+                out.add(("isinstance", a[1], left[0], True))
+    return out
 
 
 def witness_atoms(ctx, f, atoms, _depth=0):
